@@ -219,7 +219,11 @@ def manager_history(case):
     ex = BoundedExecutor(1000, 1)
     mgr = DownloadNonSeekableOutputManager(OSUtils(), coord, ex)
     sink = Sink()
-    inj = yieldinj.Injector(p=case.get('yield_p', 0.2), seed=case['seed'], files=['download.py', 'futures.py']).install()
+    wins = ()
+    if case.get('window'):
+        w = case['window']
+        wins = [{'file': 'download.py', 'line': w['lineno'], 'nth': w.get('nth', 0), 'action': 'pause', 'name': w['name'], 'wait': 0.2}]
+    inj = yieldinj.Injector(p=case.get('yield_p', 0.2), seed=case['seed'], files=['download.py', 'futures.py'], windows=wins).install()
     try:
         if case['mode'] == 'threads':
             def feed(seq):
@@ -279,6 +283,16 @@ def gen_cases(tier, seed):
         cases.append({'type': 'mgr', 'seed': rng.randrange(1 << 30), 'n': rng.choice([5, 16, 40, 64]), 'parts': rng.choice([1, 2, 3, 5]),
                       'attempts': rng.choice([1, 2, 3, 4]), 'mode': rng.choice(['threads', 'threads', 'sequential', 'immediate']),
                       'yield_p': rng.choice([0.0, 0.2])})
+    # several request threads delivering their parts at the same time, with the first (second, ...) thread that reaches a statement of
+    # the output manager / defer queue held there until the others have run as far as they can
+    from .. import windows
+
+    wl = [l for l in windows.candidate_lines(['download.py']) if l[2].startswith(('DownloadNonSeekableOutputManager.', 'DeferQueue.', 'DownloadOutputManager.'))]
+    for line in wl:
+        for nth in ((0, 1) if quick else (0, 1, 2, 3)):
+            for rep in range(1 if quick else 3):
+                cases.append({'type': 'mgr', 'seed': rng.randrange(1 << 30), 'n': rng.choice([16, 40]), 'parts': rng.choice([2, 3, 5]), 'attempts': rng.choice([1, 2]),
+                              'mode': 'threads', 'yield_p': 0.0, 'window': {'lineno': line[1], 'nth': nth, 'name': f'{line[0]}:{line[1]}:{line[2]}'}})
     # (e2e) the whole way through TransferManager.download: destinations that cannot seek given as a stream object, as the path of a
     # FIFO, and as a symbolic link to a FIFO (like /dev/stdout), parts finishing in steered orders, retried ranges, short reads
     for i in range(60 if quick else 600):
